@@ -35,7 +35,8 @@ LEVEL_NOTE = ("Trusts the digest function and the sub-interpreter driver (usimds
 TECHNIQUE = "deterministic simulation, differential replay across configurations and fresh interpreters, FIFO run-queue monitor"
 
 BATCH = 25
-INPROC = [{"waitq": "heap"}, {"waitq": "sd"}, {"waitq": "heap", "junk": 37},
+LAYOUT_DEPENDENT = True      # see runner.drive: confirmation tries several violations / interpreters
+INPROC = [{"waitq": "heap"}, {"waitq": "sd"}, {"waitq": "heap", "junk": 37, "retain": True},
           {"waitq": "sd", "junk": 101, "gc": True}, {"waitq": "heap", "gc": True}]
 SUBPROC = [{"hashseed": "0", "waitq": "", "opt": False}, {"hashseed": "1", "waitq": "SD", "opt": False},
            {"hashseed": "4242", "waitq": "", "opt": True}, {"hashseed": "1", "waitq": "SD", "opt": True},
@@ -60,8 +61,24 @@ def wake_order_program(rng):
     else:
         expr = {"k": "cmp", "l": "X", "op": ">=", "r": 1}
     actors = []
+    # condition objects that are only looked at, kept for a while and dropped again between two
+    # subscriptions: unrelated garbage whose addresses get re-used by later subscribers
+    n_probe = rng.choice([0, 1, 2, 3, 5])
+    drop_before = rng.randint(1, n - 1) if n_probe else None
+    if n_probe:
+        if kind == "own-comparison":
+            probes = [{"k": "cmp", "l": "X", "op": ">=", "r": 5 + j} for j in range(n_probe)]
+        else:
+            probes = [rng.choice([{"k": "not", "x": {"k": "flag", "n": "F"}},
+                                  {"k": "and", "xs": [{"k": "flag", "n": "F"}, {"k": "flag", "n": "G"}]},
+                                  {"k": "cmp", "l": "X", "op": ">=", "r": 5 + j}])
+                      for j in range(n_probe)]
+        ops = [{"op": "hold", "as": "p%d" % j, "x": x} for j, x in enumerate(probes)]
+        ops.append({"op": "postpone", "k": drop_before + 1})
+        ops.extend({"op": "drop", "as": "p%d" % j} for j in range(n_probe))
+        actors.append({"name": "prober", "ops": ops})
     for i in range(n):
-        ops = [{"op": "postpone", "k": i + 1}]          # subscribe one after the other
+        ops = [{"op": "postpone", "k": i + 1 + (2 if drop_before is not None and i >= drop_before else 0)}]          # subscribe one after the other
         if kind == "until-flag":
             ops.append({"op": "scope", "label": "U%d" % i, "until": expr, "children": [],
                         "body": [{"op": "now", "tag": "subscribed"}, {"op": "eternity"}]})
@@ -146,6 +163,8 @@ def configured(sub, config):
         case["config"]["waitq"] = config["waitq"]
     if config.get("junk"):
         case["config"]["junk"] = config["junk"]
+    if config.get("retain"):
+        case["config"]["retain"] = True
     if config.get("gc"):
         for tick in sub.get("gc_ticks", (7, 23)):
             case["plan"].append({"tick": tick, "kind": "gc"})
